@@ -110,6 +110,7 @@ type Exec struct {
 	merging                         int
 	pendingUnsafe                   string
 	mapChoices                      int
+	lastFn                          *ssa.Function
 	pending                         []pendingAssert
 	noMerge                         bool
 	threads                         *threadState
@@ -569,6 +570,13 @@ func (w *Worker) runPath(it *workItem) (res pathResult) {
 		switch p := r.(type) {
 		case abortPath:
 			res.kind, res.msg = p.kind, p.msg
+			if p.kind == outUnsupported {
+				var st []string
+				for i := len(ex.callStack) - 1; i >= 0 && len(st) < 6; i-- {
+					st = append(st, ex.callStack[i].Name())
+				}
+				res.msg += " [in " + strings.Join(st, " < ") + "]"
+			}
 			if p.kind == outViolation {
 				res.viol = ex.viol
 			}
